@@ -352,3 +352,15 @@ def guvectorize_contract(fi):
             if n and n not in in_names:
                 problems.append(f"output core dimension {n!r} does not occur among the inputs of the layout")
     return (ins, outs), problems
+
+
+# ------------------------------------------------------------------ drivers: short call sequences interpreted like the code
+def driver(module: str, src: str):
+    """FuncInfo of an ad-hoc function whose names resolve in `module` of the package: lets a rule state a *sequence* of calls
+    (state shared between calls shows) and have it interpreted by the same evaluator, forks and all."""
+    import ast
+
+    from .core import FuncInfo
+
+    node = ast.parse(src).body[0]
+    return FuncInfo(f"{module}:{node.name}", module, node, None, None)
